@@ -43,7 +43,7 @@ func init() {
 			}
 			return ps
 		},
-		MinObserved: []string{"scenario_executions", "S5_set_calls", "S5_client_ops", "fan_out_handler_rounds", "rounds_of_requests_after_failed_writes", "fresh_servers_whose_first_requests_were_unrouted", "repetitions_with_debug_level_loggers", "starttls_upgrades_with_a_shared_config_that_sets_an_old_minimum_version", "token_group_searches_in_the_directory_scenarios", "requests_served_after_an_upgrade_that_had_a_request_in_flight"},
+		MinObserved: []string{"scenario_executions", "S5_set_calls", "S5_address_and_certificate_accessor_calls", "S5_client_ops", "fan_out_handler_rounds", "rounds_of_requests_after_failed_writes", "fresh_servers_whose_first_requests_were_unrouted", "repetitions_with_debug_level_loggers", "starttls_upgrades_with_a_shared_config_that_sets_an_old_minimum_version", "token_group_searches_in_the_directory_scenarios", "requests_served_after_an_upgrade_that_had_a_request_in_flight"},
 	})
 }
 
@@ -498,6 +498,23 @@ func c15Directory(c *Ctx, r *Rand, withSet bool) {
 					_ = td.AllowAnonymousBind()
 				}
 				c.Count("S5_set_calls", 1)
+				time.Sleep(200 * time.Microsecond)
+			}
+		}()
+		// ... and a third party that only asks the directory where it listens (what a test does before every dial)
+		wg.Add(1)
+		go func() {
+			defer wg.Done()
+			for i := 0; i < 150; i++ {
+				switch i % 3 {
+				case 0:
+					_ = td.Port()
+				case 1:
+					_ = td.Host()
+				case 2:
+					_ = len(td.Cert())
+				}
+				c.Count("S5_address_and_certificate_accessor_calls", 1)
 				time.Sleep(200 * time.Microsecond)
 			}
 		}()
